@@ -50,7 +50,7 @@ def lru_variations(lru: bytes):
     stems = lru.split(b"|")
     hosts = [s for s in stems if s.startswith(b"h:")]
     hosts_str = b"|".join(hosts) + b"|"
-    if len(hosts) == 1:
+    if len(hosts) <= 1:
         return variations
     if hosts[-1] == b"h:www":
         hosts.pop(-1)
